@@ -22,6 +22,10 @@ type G struct {
 	batch   []string
 	stats   map[string]int
 	runTime time.Duration
+	// PM: handshake messages collected from the S generators (items 3 and 7)
+	pmOn   bool
+	pmSeen map[string]bool
+	pmList []pmCase
 }
 
 func (g *G) thorough() bool { return g.tier == "thorough" }
@@ -47,6 +51,9 @@ func (g *G) emit(kind string, rest string) {
 }
 
 func (g *G) S(role string, c vcfg, items []item) {
+	if g.pmOn {
+		g.pmCollect(role, c, items)
+	}
 	g.emit("S", fmt.Sprintf("%s %s %s %s", role, c.String(), abstractOf(role, c, items), encItems(items)))
 }
 
@@ -1458,12 +1465,12 @@ func (g *G) pCases() {
 // ---------------------------------------------------------------------------------------------
 
 func gen(seed uint64, tier string, o *hx.Out) {
-	g := &G{r: hx.NewRng(seed), o: o, tier: tier, stats: map[string]int{}}
+	g := &G{r: hx.NewRng(seed), o: o, tier: tier, stats: map[string]int{}, pmSeen: map[string]bool{}}
 	steps := []struct {
 		name string
 		f    func()
-	}{{"item1", g.item1}, {"item2", g.item2}, {"item2b", g.item2b}, {"item3", g.item3}, {"item4", g.item4}, {"item5", g.item5}, {"item6", g.item6}, {"item7", g.item7}, {"R", g.rCases},
-		{"H", g.hCases}, {"V", g.vCases}, {"P", g.pCases}}
+	}{{"item1", g.item1}, {"item2", g.item2}, {"item2b", g.item2b}, {"item3", func() { g.pmOn = true; g.item3(); g.pmOn = false }}, {"item4", g.item4}, {"item5", g.item5}, {"item6", g.item6}, {"item7", func() { g.pmOn = true; g.item7(); g.pmOn = false }}, {"R", g.rCases},
+		{"H", g.hCases}, {"V", g.vCases}, {"P", g.pCases}, {"PM", g.pmCases}}
 	for _, s := range steps {
 		t0, n0 := time.Now(), g.id
 		s.f()
